@@ -2090,7 +2090,7 @@ func (c *Container) runCountRange(start, end int32) (n int32) {
 			break
 		}
 		// iv is superset of range
-		if int32(iv.start) < start && int32(iv.last) > end {
+		if int32(iv.start) <= start && int32(iv.last) >= end {
 			return end - start
 		}
 		// iv is subset of range
